@@ -1,22 +1,131 @@
-import CssVerif.Model.Num
+import CssVerif.Lemmas.Num
 /-!
 # C18 — value normalisation never changes what a value denotes
+
+Property theorems only (helpers: `Lemmas/Num.lean`). Models: `Model/Num.lean` (numbers, strings, URLs, hash,
+`Out.append` on the value path). Tied to `cssutils/serialize.py`, `css/value.py`, `helper.py` by the
+correspondence of `tools/harness/c18.py` and to the tables of the source by `Gen/C18Tables.lean`.
+
+A literal is given by its parts `l : Lit` (sign, integer digits, optional fraction digits, unit) — every text the
+tokenizer delivers as one NUMBER / PERCENTAGE / DIMENSION token whose unit has no escape is `l.text` for a
+well-formed `l` (`Lit.Wf`). `roundTrip p typ text` is `DimensionValue(text).cssText` under preferences `p`.
+The number operations are those of the *exact layer* (`exactOps`).
 -/
 namespace CssVerif.C18
-open CssVerif.Num
+open CssVerif.Num CssVerif.Proto
+
+/-! ## tables of the source the theorems are about -/
+
+/-- the units after which the serializer drops the unit of a zero are exactly the eight CSS 2.1 length units -/
+theorem zero_length_units_table :
+    zeroLenUnits = [cps "cm", cps "mm", cps "in", cps "px", cps "pc", cps "pt", cps "em", cps "ex"] := by decide
+
+/-- the defaults and the minified preset of the preferences the model reads -/
+theorem prefs_tables :
+    Gen.C18.defaultPrefs = (false, true, [0x20], [0x20]) ∧ Gen.C18.minifiedPrefs = (true, true, [], []) := by decide
+
+/-- the regular expressions transcribed by hand are the ones in the source (a changed pattern breaks this) -/
+theorem regex_sources_pinned :
+    Gen.C18.reUnNumDimPattern = ("^([+-]?)([0-9]*\\.[0-9]+|[0-9]+)(.*)$", "re.I|re.S|re.U|re.X") ∧
+    Gen.C18.reHexcolorPattern = ("^\\#(?:[0-9abcdefABCDEF]{3}|[0-9abcdefABCDEF]{6})$", "") ∧
+    Gen.C18.simpleescapesPattern = ("(\\\\[^0-9a-fA-F])", "") ∧
+    Gen.C18.forbiddenInUriPattern = (".*?[\\(\\)\\s\\;,'\"]", "re.U") ∧
+    Gen.C18.stringReplaces = [([0x0A], cps "\\a "), ([0x0D], cps "\\d "), ([0x0C], cps "\\c "), ([0x22], cps "\\\"")] := by
+  decide
+
+/-- the white-space table of the interpreter (`str.isspace`, regex `\s`) that `strip`, `isBlank` and the URL
+quoting rule use -/
+theorem space_table : Gen.C18.spaceChars =
+    [9, 10, 11, 12, 13, 28, 29, 30, 31, 32, 0x85, 0xA0, 0x1680, 0x2000, 0x2001, 0x2002, 0x2003, 0x2004, 0x2005,
+     0x2006, 0x2007, 0x2008, 0x2009, 0x200A, 0x2028, 0x2029, 0x202F, 0x205F, 0x3000] := by decide
+
+/-! ## T18.1 numbers: written form = canonical literal; same real number, same unit -/
+
+/-- **T18.1a** the text written for a number is the canonical literal of its parts: sign as written, leading
+zeros of the integer part and trailing zeros of the fraction dropped, unit in lower case, `0` for zero
+(unit-less exactly after the eight length units), a single `0` before the point exactly when `omitLeadingZero`
+is off — for every literal with at most six fraction digits, every unit, every preference record. -/
+theorem number_written_canonical (l : Lit) (h : l.Wf) (p : Prefs) (typ : NumType)
+    (hsp : isBlank p.spacer = true) (h6 : (l.fp.getD []).length ≤ 6) (hov : floatOverflows l.ip = false) :
+    roundTrip p typ l.text = .ok (canonLit p.omitLeadingZero l).text :=
+  roundTrip_canon h p typ hsp h6 hov
+
+/-- **T18.1** `number_denotes`: the written text denotes exactly the same rational number as the literal
+(`Lit.value`, computed from the parts) and the same unit; the only unit ever dropped is a zero-length unit after
+a zero value. -/
+theorem number_denotes (l : Lit) (h : l.Wf) (p : Prefs) (typ : NumType)
+    (hsp : isBlank p.spacer = true) (h6 : (l.fp.getD []).length ≤ 6) (hov : floatOverflows l.ip = false) :
+    ∃ out d, roundTrip p typ l.text = .ok out ∧ denote out = some d ∧ denote l.text = some l.den ∧
+      l.den.toRat = l.value ∧ d.toRat = l.value ∧
+      (d.unit = l.unit.map lowerAscii ∨
+        (l.value = 0 ∧ l.unit.map lowerAscii ∈ zeroLenUnits ∧ d.unit = [])) := by
+  refine ⟨_, _, roundTrip_canon h p typ hsp h6 hov, denote_text (Wf.canon h _), denote_text h, l.den_toRat, ?_, ?_⟩
+  · rw [Den.toRat_eq_of_sameValue (canon_sameValue _), l.den_toRat]
+  · rcases canon_unit p.omitLeadingZero l with hu | ⟨hm, hz, hu⟩
+    · exact Or.inl hu
+    · refine Or.inr ⟨?_, hz, hu⟩
+      rw [← l.den_toRat]
+      unfold Den.toRat
+      rw [hm]
+      have c0 : ((0 : Nat) : Rat) = 0 := rfl
+      rw [c0, Rat.div_def]; simp [Rat.mul_zero]
+
+/-- **T18.2** normalisation is idempotent: the written text, parsed again (as whatever numeric token type),
+is written unchanged. -/
+theorem number_idempotent (l : Lit) (h : l.Wf) (p : Prefs) (typ typ' : NumType)
+    (hsp : isBlank p.spacer = true) (h6 : (l.fp.getD []).length ≤ 6) (hov : floatOverflows l.ip = false) :
+    ∃ out, roundTrip p typ l.text = .ok out ∧ roundTrip p typ' out = .ok out := by
+  refine ⟨_, roundTrip_canon h p typ hsp h6 hov, ?_⟩
+  have hw := Wf.canon h p.omitLeadingZero
+  have := roundTrip_canon hw p typ' hsp (canon_frac_le h6 _) (canon_no_overflow hov _)
+  rw [this, canonLit_idem l _ (by decide)]
+
+/-- sign rule, spelled out: a `-` is kept on every non-zero number, a `+` is kept exactly when it was written and
+the number is not zero, zero is written without sign -/
+theorem number_sign_kept (l : Lit) (olz : Bool) :
+    (canonLit olz l).sign = if E.allZero l.ip && E.allZero (l.fp.getD []) then [] else l.sign := by
+  rcases Bool.eq_false_or_eq_true (E.allZero (l.fp.getD [])) with hf | hf
+  · rcases Bool.eq_false_or_eq_true (E.allZero l.ip) with hi | hi
+    · rw [canonLit_zero olz hi hf]; simp [hi, hf]
+    · rw [canonLit_int olz hi hf]; simp [hi]
+  · rw [canonLit_frac olz hf]; simp [hf]
+
+/-- zero rule, spelled out: a zero value is written `0`, followed by its unit unless that is one of the eight
+length units — whatever the sign and however many zeros were written -/
+theorem number_zero (l : Lit) (h : l.Wf) (p : Prefs) (typ : NumType) (hsp : isBlank p.spacer = true)
+    (h6 : (l.fp.getD []).length ≤ 6) (hi : E.allZero l.ip = true) (hf : E.allZero (l.fp.getD []) = true) :
+    roundTrip p typ l.text =
+      .ok (cZero :: (if zeroLenUnits.contains (l.unit.map lowerAscii) then [] else l.unit.map lowerAscii)) := by
+  have hov : floatOverflows l.ip = false := by
+    unfold floatOverflows; rw [natOfDigits_allZero hi]; decide +kernel
+  rw [roundTrip_canon h p typ hsp h6 hov, canonLit_zero _ hi hf]
+  simp [Lit.text, fracText]
+
+/-! non-vacuity and samples (tests, not theorems) -/
+
+example : (⟨[cPlus], cps "0", some (cps "50"), cps "PX"⟩ : Lit).text = cps "+0.50PX" := by decide +kernel
+example : roundTrip Prefs.default .dimension (cps "+0.50PX") = .ok (cps "+0.5px") := by decide +kernel
+example : roundTrip { Prefs.default with omitLeadingZero := true } .dimension (cps "-0.05em") = .ok (cps "-.05em") := by
+  decide +kernel
+example : roundTrip Prefs.default .dimension (cps "-00.000em") = .ok (cps "0") := by decide +kernel
+example : roundTrip Prefs.default .percentage (cps "+0%") = .ok (cps "0%") := by decide +kernel
+example : roundTrip Prefs.default .dimension (cps "001.500deg") = .ok (cps "1.5deg") := by decide +kernel
+example : roundTrip Prefs.default .number (cps "x") = .error .indexError := by decide +kernel
+
+/-! ## T18.3 hash colours -/
 
 /-- T18.3a: a hash colour is only ever rewritten when `minimizeColorHash` is set, it has seven characters
 and its three digit pairs are equal; the short form expands back to it -/
 theorem hash_changes_only_when_lossless (p : Prefs) (v : List Nat) (h : hashShort p v ≠ v) :
-    ∃ a c e, v = [0x23, a, a, c, c, e, e] ∨ (∃ x, v = [x, a, a, c, c, e, e]) := by
-  unfold hashShort at h
+    p.minimizeColorHash = true ∧ ∃ x a c e, v = [x, a, a, c, c, e, e] ∧ hashShort p v = [0x23, a, c, e] := by
+  unfold hashShort at h ⊢
   split at h
   · rename_i x a b c d e f
     split at h
     · rename_i hh
-      obtain ⟨_, h1, h2, h3⟩ := hh
+      obtain ⟨hm, h1, h2, h3⟩ := hh
       subst h1 h2 h3
-      exact ⟨a, c, e, Or.inr ⟨x, rfl⟩⟩
+      exact ⟨hm, x, a, c, e, rfl, by simp [hm]⟩
     · exact absurd rfl h
   · exact absurd rfl h
 
